@@ -108,7 +108,7 @@ func Explore(r *vk.Run, cfg Config) *Stats {
 					if stop.Load() {
 						continue
 					}
-					expand(r, cfg, n, &mu, seen, obs, st, &next, &stop, &transitions, &checks)
+					expand(r, cfg, w, n, &mu, seen, obs, st, &next, &stop, &transitions, &checks)
 				}
 			}()
 		}
@@ -172,13 +172,14 @@ func replay(cfg Config, path []string) (Sys, error) {
 	return s, nil
 }
 
-func expand(r *vk.Run, cfg Config, n node, mu *sync.Mutex, seen, obs map[string]bool, st *Stats,
+func expand(r *vk.Run, cfg Config, slot int, n node, mu *sync.Mutex, seen, obs map[string]bool, st *Stats,
 	next *[]node, stop *atomic.Bool, transitions, checks *atomic.Int64) {
 	defer func() {
 		if p := recover(); p != nil {
 			report(r, cfg.Name, n.path, vk.Violationf("panic:"+firstLine(fmt.Sprint(p)), "panic while expanding: %v", p))
 		}
 	}()
+	vk.Inflight(slot, cfg.Name, n.path)
 	s, err := replay(cfg, n.path)
 	if err != nil {
 		r.HarnessError("%s: %v", cfg.Name, err)
@@ -206,6 +207,7 @@ func expand(r *vk.Run, cfg Config, n node, mu *sync.Mutex, seen, obs map[string]
 					report(r, cfg.Name, path, vk.Violationf("panic:"+firstLine(fmt.Sprint(p)), "panic in %s: %v", op, p))
 				}
 			}()
+			vk.Inflight(slot, cfg.Name, path)
 			o, err := s.Apply(op)
 			transitions.Add(1)
 			if err != nil {
